@@ -142,16 +142,27 @@ func Render(d *Doc) *Stream {
 					gors = append(gors, gi)
 				}
 				for _, f := range g.Frames {
-					lines = append(lines, it.Indent+f.Func, it.Indent+f.File)
-					gors = append(gors, gi, gi)
+					// an empty Func or File is a line that is missing (malformed dumps)
+					if f.Func != "" {
+						lines = append(lines, it.Indent+f.Func)
+						gors = append(gors, gi)
+					}
+					if f.File != "" {
+						lines = append(lines, it.Indent+f.File)
+						gors = append(gors, gi)
+					}
 				}
 				if g.Elided != "" {
 					lines = append(lines, it.Indent+g.Elided)
 					gors = append(gors, gi)
 				}
 				if g.Created != nil {
-					lines = append(lines, it.Indent+g.Created.Func, it.Indent+g.Created.File)
-					gors = append(gors, gi, gi)
+					lines = append(lines, it.Indent+g.Created.Func)
+					gors = append(gors, gi)
+					if g.Created.File != "" {
+						lines = append(lines, it.Indent+g.Created.File)
+						gors = append(gors, gi)
+					}
 				}
 			}
 			di.GorEnd = make([]int, len(it.Gors))
